@@ -177,8 +177,15 @@ class Loops:
                 r = callee_ref(n)
                 decl = ex.tu.decls.get(r.get('id'))
                 self_args(n, decl, n['inner'][1:])
-                if r.get('name') in ('memcpy', 'memmove', 'memset', 'copy', 'fill', 'reverse', 'swap', 'advance', 'sort'):
-                    for a in n['inner'][1:]:
+                nm_ = r.get('name')
+                if nm_ in ('memcpy', 'memmove', 'memset', 'copy', 'fill', 'reverse', 'swap', 'advance', 'sort', 'nth_element'):
+                    # which arguments designate what is written: the destination of the copies, the range of the in-place ones
+                    args_ = n['inner'][1:]
+                    written = {'memcpy': args_[:1], 'memmove': args_[:1], 'memset': args_[:1], 'copy': args_[2:3], 'fill': args_[:2],
+                               'advance': args_[:1]}.get(nm_, args_)
+                    if nm_ in ('reverse', 'sort', 'nth_element'):
+                        written = args_[:3] if nm_ == 'nth_element' else args_[:2]
+                    for a in written:
                         add(a, True)
             for c in n.get('inner', ()):
                 walk(c)
